@@ -37,7 +37,7 @@ type Case struct {
 	AllCutSets  bool      `json:"all_cut_sets,omitempty"` // run every cut set of the stream (stream must be short)
 }
 
-var framingNames = []string{"line", "split1e", "split00", "splitsp", "splitff", "split80", "splitc2", "hdr", "hdrbin", "hdrcaps", "strict", "stricttp", "strictcaps", "lsp", "rawjson", "direct"}
+var framingNames = []string{"line", "split1e", "split00", "splitsp", "splitff", "split80", "splitc2", "hdr", "hdrbin", "hdrcaps", "hdrcolon", "strict", "stricttp", "strictcaps", "lsp", "rawjson", "direct"}
 
 func framingOf(name string) (channel.Framing, byte, bool) {
 	switch name {
@@ -61,6 +61,8 @@ func framingOf(name string) (channel.Framing, byte, bool) {
 		return channel.Header("binary/octet-stream"), 0, false
 	case "hdrcaps": // a content type is compared as given, letter case included
 		return channel.Header("Application/JSON; charset=UTF-8"), 0, false
+	case "hdrcolon": // the value of a header field may contain colons
+		return channel.StrictHeader(`application/json; profile="urn:example:rpc"`), 0, false
 	case "strictcaps":
 		return channel.StrictHeader("application/vnd.Example+json; Charset=UTF-8"), 0, false
 	case "strict":
@@ -497,7 +499,7 @@ func enumAllCuts(env engine.Env, yield func(Case) bool) {
 // header framings: every single cut and every pair of cuts of a two-record stream
 func enumPairs(env engine.Env, yield func(Case) bool) {
 	idx := 0
-	for _, f := range []string{"hdr", "hdrbin", "hdrcaps", "strict", "stricttp", "strictcaps", "lsp"} {
+	for _, f := range []string{"hdr", "hdrbin", "hdrcaps", "hdrcolon", "strict", "stricttp", "strictcaps", "lsp"} {
 		recs := []RecSpec{{Kind: "lit", Lit: engine.Bytes(`{"a":1}`)}, {Kind: "lit", Lit: nil}, {Kind: "lit", Lit: engine.Bytes("xy")}}
 		// stream length is at most 3*(60+len(mime)) bytes
 		n := 3*(len("Content-Type: application/vscode-jsonrpc; charset=utf-8\r\nContent-Length: 0\r\n\r\n")) + 9
